@@ -14,6 +14,7 @@ if [ "$what" = harmless ] || [ "$what" = all ]; then
   add H0-3 H0-3_seeded_harmless.diff "C01 C02 C08 C17"
   add H4 H4_handmade_unpacking_copies_negations_range_len.diff "C01 C02 C08 C17"
   add H5 H5_handmade_comments_docstrings_renamed_locals_layout.diff "C01 C02 C08 C17"
+  add H6 H6_handmade_helper_in_expressions_merged_tests_row_local.diff "C01 C02 C08 C17"
 fi
 if [ "$what" = mutations ] || [ "$what" = all ]; then
   add M1 M1_child_index_off_by_one.diff "C02"
